@@ -161,7 +161,7 @@ def same_result(a, b):
 
 # ---------------------------------------------------------------- stream 1: print / parse
 
-def stream_text(ctx):
+def stream_text(ctx, only_ops=None):
     import numpy
     of = ctx.of
     s = Stream('print-parse', 'random operators of the four savable classes (zero, identity, only-tiny, mixed, int / float / complex / '
@@ -178,6 +178,8 @@ def stream_text(ctx):
             cases.append((cls, rand_operator(rng, of, numpy, cls, kind)))
         for _ in range(n // 4):
             cases.append((cls, rand_operator(rng, of, numpy, cls)))
+    if only_ops is not None:
+        cases = only_ops
     printed = ctx.driver.run([{'op': 'c20.print', 'cls': cls, 'entries': entries_of(cls, op)} for cls, op in cases])
     strs = []
     for (cls, op), mp in zip(cases, printed):
@@ -213,6 +215,8 @@ def stream_text(ctx):
                 diff = [(k, a.get(k), b.get(k)) for k in sorted(set(a) | set(b), key=str) if a.get(k) != b.get(k)][:3]
                 s.violate('constructing the operator from its printed string does not reproduce it', c,
                           {'first_differences(term, parsed, original)': diff})
+    if only_ops is not None:
+        return s
     # malformed / hand-written strings
     hand = ['', '0', ' ', '[]', '[', ']', '1.5 []', '1.5 [] +', '- [0^ 1] + [2]', '+ [X0 Y1]', '2 [X0] + 3 [X0]', '1e3 [0^]', '1.5j [1]',
             '-1.5j [1]', '(1+2j) [1 2^]', '-(1+2j) [1]', '--1 [0]', '1 2 [0]', 'a [0]', '1.0 [0^ 1', '1.0 0^ 1]', '[0^] [1^]', '[[0]]',
@@ -459,8 +463,8 @@ def stream_molecule(ctx):
     of = ctx.of
     from openfermion.chem import MolecularData
     s = Stream('molecular-data', 'MolecularData.save() / load() with random attribute assignments (energies set or None, integral and '
-               'RDM arrays, general_calculations, geometry as list): every attribute of the reloaded object equals the saved one '
-               '(arrays exactly, None stays None); a second save/load cycle changes nothing')
+               'RDM arrays, general_calculations (also empty), zero-valued scalars, geometry as list): after each of three save/load cycles '
+               'every attribute of the reloaded object equals the saved one (arrays exactly, None stays None, 0 stays 0, atoms a list of str)')
     rng = rng_for(ctx.seed, 'c20-mol')
     base = tempfile.mkdtemp(prefix='ofv_c20m_', dir=os.environ.get('TMPDIR'))
     scalars = ['nuclear_repulsion', 'hf_energy', 'mp2_energy', 'cisd_energy', 'fci_energy', 'ccsd_energy']
@@ -486,11 +490,11 @@ def stream_molecule(ctx):
             n = rng.randint(1, 3)
             want = {}
             for a in scalars:
-                if rng.random() < 0.5:
-                    want[a] = rng.choice([-1.1, 0.0, 2.5, -74.96, rng.uniform(-100, 0)])
+                if rng.random() < 0.5 or k < 2:
+                    want[a] = 0.0 if k == 0 else rng.choice([-1.1, 0.0, 2.5, -74.96, rng.uniform(-100, 0)])
             for a in ints:
-                if rng.random() < 0.5:
-                    want[a] = rng.choice([0, 1, 2, 4, 10])
+                if rng.random() < 0.5 or k < 2:
+                    want[a] = 0 if k == 0 else rng.choice([0, 1, 2, 4, 10])
             for a, rank in arrays.items():
                 if rng.random() < 0.4:
                     want[a] = numpy.array([rng.uniform(-1, 1) for _ in range(n ** rank)]).reshape((n,) * rank)
@@ -503,25 +507,20 @@ def stream_molecule(ctx):
             try:
                 m.save()
                 m2 = MolecularData(filename=fn)
-            except Exception as e:  # noqa: BLE001
-                s.violate('MolecularData.save / load raised', c, repr(e))
-                continue
-            if not hasattr(m2, 'general_calculations'):
-                s.violate('MolecularData loaded from a file saved with empty general_calculations has no general_calculations '
-                          'attribute (a second save() raises AttributeError)', c, {'assigned_general_calculations': 'general_calculations' in want})
-                m2.general_calculations = {}
-            try:
                 m2.save()
                 m3 = MolecularData(filename=fn)
+                m3.save()
+                m4 = MolecularData(filename=fn)
             except Exception as e:  # noqa: BLE001
-                s.violate('MolecularData second save / load raised', c, repr(e))
+                s.violate('MolecularData.save / load raised (three save/load cycles)', c, repr(e))
                 continue
-            if not hasattr(m3, 'general_calculations'):
-                m3.general_calculations = {}
-            for label, mm in (('first', m2), ('second', m3)):
+            for label, mm in (('first', m2), ('second', m3), ('third', m4)):
                 bad = []
                 for a in scalars + ints + list(arrays) + ['general_calculations']:
                     v0 = want.get(a, getattr(m, a))
+                    if a == 'general_calculations' and not hasattr(mm, a):
+                        bad.append((a, repr(v0), 'attribute missing'))
+                        continue
                     try:
                         v1 = getattr(mm, a)
                     except Exception as e:  # noqa: BLE001
@@ -560,38 +559,122 @@ def stream_molecule(ctx):
 
 
 def classify(v):
-    what = v.get('what', '')
-    if v.get('stream') == 'molecular-data':
-        if what.startswith('MolecularData save/load does not return the atoms attribute'):
-            return 'C20-moldata-atoms'
-        if what.startswith('MolecularData loaded from a file saved with empty general_calculations') \
-                and not (v.get('detail') or {}).get('assigned_general_calculations'):
-            return 'C20-moldata-general-calculations'
     return None
 
 
 def probe_known(ctx, k):
-    from openfermion.chem import MolecularData
-    base = tempfile.mkdtemp(prefix='ofv_c20p_', dir=os.environ.get('TMPDIR'))
-    try:
-        fn = os.path.join(base, 'h2')
-        m = MolecularData([('H', (0.0, 0.0, 0.0)), ('H', (0.0, 0.0, 0.7414))], 'sto-3g', 1, filename=fn)
-        m.save()
-        m2 = MolecularData(filename=fn)
-        if k['id'] == 'C20-moldata-general-calculations':
-            return not hasattr(m2, 'general_calculations')
-        if k['id'] == 'C20-moldata-atoms':
-            a = m2.atoms.tolist() if hasattr(m2.atoms, 'tolist') else m2.atoms
-            return a != ['H', 'H']
-    except Exception:  # noqa: BLE001
-        return True
-    finally:
-        shutil.rmtree(base, ignore_errors=True)
     return False
 
 
+def coeff_of_text(txt):
+    """the Python number a printed coefficient text denotes (int, float or complex)"""
+    for f in (int, float, complex):
+        try:
+            return f(txt)
+        except ValueError:
+            pass
+    raise ValueError(txt)
+
+
+def operator_of_entries(of, cls, entries):
+    from common import dec_term
+    op = cls_of(of, cls)()
+    for t, _, txt in entries:
+        op.terms[dec_term(cls, t)] = coeff_of_text(txt)
+    return op
+
+
+def history_violations(ctx, case_steps):
+    """run a recorded history (protocol form) on the real code in a fresh directory -> violations"""
+    of = ctx.of
+    from openfermion.utils import operator_utils as ou
+    s = Stream('file-histories', 'replay')
+    base = tempfile.mkdtemp(prefix='ofv_c20r_', dir=os.environ.get('TMPDIR'))
+    try:
+        steps = []
+        for st in case_steps:
+            if st[0] == 'save':
+                steps.append(['save', st[1], operator_of_entries(of, st[1], st[2]), st[3], st[4], st[5]])
+            else:
+                steps.append(['load', st[1], st[2]])
+        run_history(ctx, s, of, ou, base, steps)
+    finally:
+        shutil.rmtree(base, ignore_errors=True)
+    return s.violations
+
+
+def shrink(ctx, v):
+    """minimise a failing file history: drop steps / terms while the same oracle still fails"""
+    case = v.get('input') or {}
+    if v.get('stream') != 'file-histories' or 'steps' not in case:
+        return v
+    steps = list(case['steps'])
+
+    def fails(st):
+        try:
+            return [w for w in history_violations(ctx, st) if w['what'] == v['what']]
+        except Exception:  # noqa: BLE001
+            return []
+    if not fails(steps):
+        return v
+    changed = True
+    while changed and len(steps) > 1:
+        changed = False
+        for i in range(len(steps)):
+            cand = steps[:i] + steps[i + 1:]
+            if cand and fails(cand):
+                steps, changed = cand, True
+                break
+    for i, st in enumerate(steps):
+        if st[0] == 'save':
+            ents = list(st[2])
+            j = 0
+            while j < len(ents):
+                cand_e = ents[:j] + ents[j + 1:]
+                cand = steps[:i] + [[st[0], st[1], cand_e] + st[3:]] + steps[i + 1:]
+                if fails(cand):
+                    ents, steps = cand_e, cand
+                    st = steps[i]
+                else:
+                    j += 1
+    w = fails(steps)
+    return w[0] if w else v
+
+
 def replay(ctx, payload):
-    return None
+    """re-run the recorded failing input; True = it no longer fails"""
+    import numpy
+    v = payload.get('violation')
+    if not v:
+        return None
+    of = ctx.of
+    stream, case = v.get('stream'), v.get('input') or {}
+    ctx.seed, ctx.tier = payload.get('seed', ctx.seed), payload.get('tier', ctx.tier)
+    if stream == 'print-parse':
+        if 'terms' in case:
+            op = operator_of_entries(of, case['cls'], case['terms'])
+        elif 'printed' in case:
+            try:
+                op = cls_of(of, case['cls'])(case['printed'])
+            except Exception:  # noqa: BLE001
+                return False
+            if str(op) != case['printed']:
+                # the printed form is not a fixed point: replay through the whole stream instead
+                return not any(w['what'] == v['what'] and show(w['input']) == show(case) for w in stream_text(ctx).violations)
+        else:
+            return None
+        return not stream_text(ctx, only_ops=[(case['cls'], op)]).violations
+    if stream == 'file-histories' and 'steps' in case:
+        return not history_violations(ctx, case['steps'])
+    runner = {'file-histories': stream_files, 'molecular-data': stream_molecule}.get(stream)
+    if runner is None:
+        return None
+    for drift in (False, True):
+        ctx.drift = drift
+        for w in runner(ctx).violations:
+            if w['what'] == v['what'] and show(w['input']) == show(case) and classify(w) is None:
+                return False
+    return True
 
 
 def run(ctx):
